@@ -19,4 +19,7 @@ package pubsub_controller
 //@   assert at call invoke.OpenMountedStream: !(b58enc(old(t.lnk).GetRemotePeer()) < b58enc(old(t.lnk).GetLocalPeer()))
 //@   assert at call invoke.AddPeerStream: arg1 && arg0 == t.tpl
 //@   ensures b58enc(old(t.lnk).GetRemotePeer()) < b58enc(old(t.lnk).GetLocalPeer()) ==> ret == nil
+// and the other side is not turned away by the order test: when the local ID text does not sort after
+// the remote one's and the call reports success, the stream was opened and handed to the router
+//@   assert at exit: ret == nil && !(b58enc(old(t.lnk).GetRemotePeer()) < b58enc(old(t.lnk).GetLocalPeer())) ==> called(invoke.OpenMountedStream) && called(invoke.AddPeerStream)
 //@ lemma opener-unique: forall a bytes, b bytes :: a != b ==> ((b58enc(a) < b58enc(b)) <==> !(b58enc(b) < b58enc(a)))
